@@ -26,6 +26,12 @@ Decided clauses:
         (load, store, memset / memcpy / memmove / sodium_memzero) must then sit on a path whose branch facts say it is not NULL.
         An access that comes before the test, or on the arm where the pointer is NULL, is a write / read through NULL for an
         in-contract call (tag-only verification with m == NULL, optional length out-parameters).
+  R12.8 blockwise output writes stay inside what the code's own guards leave: a write through a pointer parameter at an offset that
+        depends on a loop variable (`out + 32 * i`), on a path that holds a guard relating that offset to a length parameter
+        (`32 * i < outlen`: the code's belief about the capacity), must fit the remainder the path facts establish - a constant
+        extent E (store, memcpy / memset with a constant length, a callee that writes a fixed number of bytes - from its stores,
+        or from the public *_BYTES constant of its documented output) needs remainder >= E; a variable extent must be the
+        remainder itself or be bounded by it through a branch fact (linear arithmetic over the path terms, no wrap-around).
 NOT decided: absence of out-of-bounds / undefined behaviour in general (needs a relational numeric
 domain over loop indices; goto-analyzer was tried and is unusable — DESIGN §7).
 """
@@ -210,6 +216,7 @@ def run(ctx, chk):
             return getattr(self._c, n)
     c20.analyse(prog, _Renamed(chk), "native")
     null_rule(prog, chk)
+    block_write_rule(prog, chk)
 
 
 DEREF_FILL = ("memset", "llvm.memset", "sodium_memzero")
@@ -372,9 +379,10 @@ class FixedExtent:
     argument or with its own fixed extent. The minimum over paths is taken, so reads that happen only under a
     condition (e.g. on another length parameter) do not count. None when nothing is known."""
 
-    def __init__(self, prog):
+    def __init__(self, prog, kind="read"):
         self.prog = prog
         self.memo = {}
+        self.kind = kind     # "read": leading bytes definitely read; "write": leading bytes definitely written
 
     def of(self, fn, j, depth=0):
         key = (fn.key, j)
@@ -394,7 +402,7 @@ class FixedExtent:
                 continue
             best = 0
             for e in p.events:
-                if e.kind == "load":
+                if e.kind == ("load" if self.kind == "read" else "store"):
                     if T.root(e.addr) == root:
                         co, k = T.linear(e.addr)
                         if set(co) == {root} and co[root] == 1 and k >= 0:
@@ -402,8 +410,15 @@ class FixedExtent:
                 elif e.kind == "call":
                     name = e.callee_name() or ""
                     if e.callee[0] == "ext" and (name.startswith("llvm.memcpy") or name.startswith("llvm.memmove") or name in ("memcpy", "memmove")):
-                        if len(e.args) >= 3 and T.root(e.args[1]) == root and e.args[2][0] == "c":
-                            co, k = T.linear(e.args[1])
+                        ai = 1 if self.kind == "read" else 0
+                        if len(e.args) >= 3 and T.root(e.args[ai]) == root and e.args[2][0] == "c":
+                            co, k = T.linear(e.args[ai])
+                            if set(co) == {root} and k >= 0:
+                                best = max(best, k + e.args[2][1])
+                        continue
+                    if e.callee[0] == "ext" and self.kind == "write" and (name.startswith("llvm.memset") or name == "memset"):
+                        if len(e.args) >= 3 and T.root(e.args[0]) == root and e.args[2][0] == "c":
+                            co, k = T.linear(e.args[0])
                             if set(co) == {root} and k >= 0:
                                 best = max(best, k + e.args[2][1])
                         continue
@@ -608,3 +623,130 @@ def callers_aligned(prog, cg, f, pi, need, off, stride):
                     if not gd or not aligned_ok(gd[1]["align"], o2, s2, need):
                         ok = False
     return ok and found
+
+
+def _lin_sub(a, b):
+    (ca, ka), (cb, kb) = a, b
+    d = dict(ca)
+    for k, v in cb.items():
+        d[k] = d.get(k, 0) - v
+    return {k: v for k, v in d.items() if v}, ka - kb
+
+
+def _lin_add(a, b):
+    (ca, ka), (cb, kb) = a, b
+    d = dict(ca)
+    for k, v in cb.items():
+        d[k] = d.get(k, 0) + v
+    return {k: v for k, v in d.items() if v}, ka + kb
+
+
+def _guards(fb):
+    """[(linear X, c)]: X >= c, from the unsigned comparison facts of the path"""
+    out = []
+    for t, v in fb.items:
+        if t[0] != "icmp":
+            continue
+        pred, a, b = t[1], t[2], t[3]
+        if not v:
+            pred = {"ult": "uge", "ule": "ugt", "ugt": "ule", "uge": "ult"}.get(pred)
+        if pred in ("ugt", "uge"):
+            a, b = b, a
+            pred = {"ugt": "ult", "uge": "ule"}[pred]
+        if pred not in ("ult", "ule"):
+            continue
+        out.append((_lin_sub(T.linear(b), T.linear(a)), 1 if pred == "ult" else 0))
+    return out
+
+
+def contract_out_size(prog, g, k):
+    """documented size of a fixed-size output parameter of a public function: crypto_auth_hmacsha256_final(state, out) writes
+    crypto_auth_hmacsha256_BYTES (the longest prefix of the name that has a *_BYTES constant in the public headers)"""
+    if not g.public or k >= len(g.params) or g.params[k]["name"] not in ("out", "h", "hash"):
+        return None
+    if k in length_pairs(g) or (g.params[k]["name"] + "len") in [q["name"] for q in g.params]:
+        return None
+    parts = g.sname.split("_")
+    for n in range(len(parts), 1, -1):
+        v = prog.consts.get("_".join(parts[:n]) + "_BYTES")
+        if v is not None:
+            return v
+    return None
+
+
+def block_write_rule(prog, chk):
+    fxw = FixedExtent(prog, "write")
+    n = 0
+    for fn in sorted(prog.functions(), key=lambda f: (f.unit, f.name)):
+        if len(fn.insts) > 2500 or not any(q["ty"].endswith("*") for q in fn.params):
+            continue
+        try:
+            ps = cm.paths(prog, fn)
+        except AnalysisBroken:
+            continue
+        seen = set()
+        for p in ps:
+            for e in p.events:
+                ws = []
+                if e.kind == "store":
+                    ws.append((e.addr, C(e.size, 64), "store"))
+                elif e.kind == "call":
+                    nm = e.callee_name() or ""
+                    if nm.startswith(("memcpy", "memmove", "memset", "llvm.memcpy", "llvm.memmove", "llvm.memset")) and len(e.args) >= 3:
+                        ws.append((e.args[0], e.args[2], nm))
+                    elif e.callee[0] == "fn":
+                        g = e.callee[1]
+                        for k, a in enumerate(e.args):
+                            if isinstance(a, tuple) and k < len(g.params) and T.root(a)[0] == "arg":
+                                ex = fxw.of(g, k) or contract_out_size(prog, g, k)
+                                if ex:
+                                    ws.append((a, C(ex, 64), g.sname))
+                for addr, E, what in ws:
+                    r = T.root(addr)
+                    if r[0] != "arg":
+                        continue
+                    co, k0 = T.linear(addr)
+                    if co.get(r) != 1:
+                        continue
+                    D = ({a: v for a, v in co.items() if a != r}, k0)
+                    if not D[0] or all(a[0] == "arg" for a in D[0]):
+                        continue            # constant offsets / plain functions of the parameters are R12.4's business
+                    fb = p.facts_before(e.idx)
+                    gs = _guards(fb)
+                    beliefs = {}
+                    for X, c in gs:
+                        S = _lin_add(X, D)
+                        if S[0] and all(a[0] == "arg" for a in S[0]):
+                            key = tuple(sorted(S[0].items()))
+                            beliefs[key] = max(beliefs.get(key, -(1 << 70)), c - S[1])
+                    if not beliefs:
+                        continue
+                    n += 1
+                    ok = False
+                    for Sitems, c in beliefs.items():
+                        S = (dict(Sitems), 0)
+                        if E[0] == "c":
+                            ok = ok or c >= E[1]
+                            continue
+                        rem = _lin_sub(S, D)
+                        R = _lin_sub(rem, T.linear(E))
+                        if not R[0] and R[1] >= 0:
+                            ok = True
+                        iv = fb.interval(E)
+                        if iv and iv[1] <= c:
+                            ok = True
+                        for X2, c2 in gs:
+                            R2 = _lin_sub(R, X2)
+                            if not R2[0] and R2[1] + c2 >= 0:
+                                ok = True
+                    if not ok and (e.iid,) in seen:
+                        continue
+                    if not ok:
+                        seen.add((e.iid,))
+                    cap = " / ".join(" + ".join("%s%s" % ("" if v == 1 else "%d*" % v, fn.params[a[1]]["name"]) for a, v in Sitems)
+                                     for Sitems in beliefs)
+                    chk.ob("R12.8", fn, "a write at a loop-dependent offset fits the remainder the path's own guards establish", ok,
+                           loc=fn.loc(e.iid), path=None if ok else p,
+                           detail="" if ok else "%s writes %s byte(s) at %s; the guards on this path only establish that %s byte(s) remain below %s"
+                           % (what, T.show(E, fn), T.show(addr, fn), max(beliefs.values()), cap), key="R12.8 %s %s" % (fn.sname, what))
+    chk.floor("R12.8", "writes at loop-dependent offsets under a capacity guard", n, 1500)
